@@ -412,9 +412,16 @@ func ruleP03Result(p *Prog, r *Report) {
 		r.bad(rule, "MakeResult:text", p.pos(mk.Pos()), "MakeResult does not re-parse a text")
 	} else {
 		text := parse.Common().Args[len(parse.Common().Args)-1]
+		if okB, handled := p.builderFold(mk, text, orig); handled {
+			r.check(okB, rule, "MakeResult:text", p.instrPos(parse), "text = concatenation (strings.Builder) of Original() of every line, in order", "the text MakeResult validates and returns is not the unconditional in-order concatenation of l.Original() over r.lines")
+			text = nil
+		}
 		phis, ins := phiCycle(text)
 		ok := len(phis) > 0
 		nCat := 0
+		if text == nil {
+			ins = nil
+		}
 		for _, in := range ins {
 			if s, isS := constString(in); isS {
 				if s != "" {
@@ -449,7 +456,9 @@ func ruleP03Result(p *Prog, r *Report) {
 				ok = false
 			}
 		}
-		r.check(ok && nCat == 1, rule, "MakeResult:text", p.instrPos(parse), "text = concatenation of Original() of every line, in order", "the text MakeResult validates and returns is not the unconditional in-order concatenation of l.Original() over r.lines")
+		if text != nil {
+			r.check(ok && nCat == 1, rule, "MakeResult:text", p.instrPos(parse), "text = concatenation of Original() of every line, in order", "the text MakeResult validates and returns is not the unconditional in-order concatenation of l.Original() over r.lines")
+		}
 	}
 	// flatten: result = append(result, b.Lines()...) for every block
 	for _, ret := range returnsOf(flat) {
@@ -807,4 +816,50 @@ func ruleP08Split(p *Prog, r *Report) {
 		ok = nOK == 2 && strip(cs[0].Common().Args[0]) == ssa.Value(nl.Params[0])
 	}
 	r.check(ok, rule, "NewLineFromString", p.pos(nl.Pos()), "Line{Text, LineEnding} = splitOffLineEnding(raw)", "NewLineFromString does not store the two parts of its argument as Text and LineEnding")
+}
+
+// builderFold: text == sb.String() for a local strings.Builder that receives exactly one
+// WriteString(l.Original()) per line of r.lines, unconditionally. handled=false when text is
+// not built with a strings.Builder.
+func (p *Prog) builderFold(f *ssa.Function, text ssa.Value, orig *ssa.Function) (ok bool, handled bool) {
+	c, idx := callOf(text)
+	if c == nil || idx != 0 || staticCallee(c) == nil || staticCallee(c).String() != "(*strings.Builder).String" {
+		return false, false
+	}
+	sb, isA := strip(c.Common().Args[0]).(*ssa.Alloc)
+	if !isA {
+		return false, true
+	}
+	n := 0
+	good := true
+	eachInstr(f, func(in ssa.Instruction) {
+		w, ok := in.(ssa.CallInstruction)
+		if !ok || staticCallee(w) == nil || len(w.Common().Args) == 0 || strip(w.Common().Args[0]) != ssa.Value(sb) || w == c {
+			return
+		}
+		switch staticCallee(w).String() {
+		case "(*strings.Builder).WriteString":
+			n++
+			oc, isO := isCallTo(w.Common().Args[1], orig, 0)
+			if !isO {
+				good = false
+				return
+			}
+			coll := rangeElemOf(oc.Common().Args[0])
+			if coll == nil {
+				good = false
+				return
+			}
+			if _, fld := fieldLoad(coll); fld != "lines" {
+				good = false
+			}
+			if only, _ := onlyLoopGuards(w.Block()); !only {
+				good = false
+			}
+		case "(*strings.Builder).Grow", "(*strings.Builder).Len":
+		default:
+			good = false
+		}
+	})
+	return good && n == 1, true
 }
